@@ -72,6 +72,12 @@ func (a *API) enter(ctx context.Context, tok int) *Tok {
 	if hold {
 		simrt.Yield("handler-" + strconv.Itoa(tok))
 	}
+	t.mu.Lock()
+	gate := t.Gate
+	t.mu.Unlock()
+	if gate != nil {
+		<-gate
+	}
 	return t
 }
 
